@@ -40,6 +40,12 @@ type Outcome struct {
 	Evaluations  int            `json:"evaluations,omitempty"`  // executions inside this run (fault enumeration); 0 means 1
 	ExtraSigs    []string       `json:"-"`                      // further behaviour signatures (one per enumerated placement)
 	All          []*Violation   `json:"-"`                      // every failed oracle of the run, any property
+	// Recorded, when set, is the plan completed with the decisions actually taken
+	// (schedule); it is what gets minimised and written to the replay file.
+	Recorded json.RawMessage `json:"-"`
+	// Fatal: the process must not execute another plan (a scheduled run was aborted
+	// and its goroutines are left parked).
+	Fatal bool `json:"-"`
 }
 
 func (o *Outcome) Fault(kind string) {
@@ -300,6 +306,9 @@ func exploreMode(t *testing.T, spec *Spec, res *WorkerResult) {
 		if len(res.Samples) < 3 && (o.Signature != "" || i > 20) {
 			res.Samples = append(res.Samples, plan)
 		}
+		if o.Recorded != nil && o.Violation != nil {
+			plan = o.Recorded
+		}
 		if o.Violation != nil && strings.HasPrefix(o.Violation.Oracle, "harness.") {
 			res.Error = "harness self-check failed: " + o.Violation.String() + " plan=" + string(plan)
 			break
@@ -329,6 +338,9 @@ func exploreMode(t *testing.T, spec *Spec, res *WorkerResult) {
 				}
 				res.KnownHits[k]++
 				res.KnownDetail[k] = o.Violation.Detail
+				if o.Fatal {
+					break
+				}
 				continue
 			}
 			// New violation: minimise, write the replay file, stop this worker.
